@@ -221,6 +221,10 @@ class RefServer:
             return out
 
     def login_step(self, line):
+        if self.pending_login == "oauth-failure":
+            # RFC 7628 section 3.2.3: after the error challenge the client sends a dummy response, and the server fails the exchange
+            self.pending_login = None
+            return self.st(b"NO", None, b"Authentication failed (invalid token)")
         try:
             val = base64.b64decode(line.strip(b'"'), validate=True)
         except Exception:  # noqa
@@ -306,6 +310,11 @@ class RefServer:
                 except Exception:  # noqa
                     self.log.append("OAUTHBEARER: malformed initial response")
                     return self.st(b"NO")
+                if getattr(self, "oauth_challenge", False) and self.users.get(u) != tok:
+                    # the RFC 7628 way of refusing a token: an error challenge first, NO after the client's dummy response
+                    self.auth_attempt = ("OAUTHBEARER", u, tok)
+                    self.pending_login = "oauth-failure"
+                    return b'"eyJzdGF0dXMiOiJpbnZhbGlkX3Rva2VuIiwic2NvcGUiOiJzaWV2ZSJ9"\r\n'
                 return self.finish_auth(u, tok, "OAUTHBEARER")
             self.log.append("AUTHENTICATE %r with %d arguments" % (mech, len(args)))
             return self.st(b"NO")
